@@ -3,6 +3,7 @@ import cases as C
 import files as F
 import refesri
 import sfv
+import shapes
 import stages
 
 
@@ -100,7 +101,8 @@ def run(rep, tier, rng):
                        "records, per-record optional M, PointZ with/without M, 0/1-vertex parts, 0 parts, arbitrary boxes and "
                        "record numbers, trailing bytes) plus %d files of the exhaustive small scope (every kind x optional-M x "
                        "part structures up to 3 parts x 0..2 points); each read generically and with the typed reader of the "
-                       "file's type; oracle: result == independent Python denotation; non-trivial = distinct case" % (nrand, len(scope)))
+                       "file's type; plus 6 files whose first record has more than 1024 parts / rings / patches / points; oracle: "
+                       "result == independent Python denotation; non-trivial = distinct case" % (nrand, len(scope)))
     cases, oracles = [], []
     for m in models:
         shp = refesri.encode_shp(m)
@@ -120,6 +122,25 @@ def run(rep, tier, rng):
     rep.sample({"case_kind": "read", "shp_bytes_hex": refesri.encode_shp(models[0]).hex()[:400], "req": -1})
     stages.correspondence(rep, "read", dev, cases, "read(reference files)",
                           oracle=lambda c, r: table[id(c)](c, r))
+    # counts beyond the reader's pre-sizing cap (1024): parts, patches, rings, points; each followed by a small record
+    # (a reader that loses its place in the large one misreads the next); model too in the thorough tier
+    bigs = []
+    for code, lens in ((31, [1] * 1030), (3, [2] * 1030), (5, [1] * 1026), (8, None), (13, [2] * 1100), (25, [3] * 1025)):
+        if code in refesri.MULTIPOINT:
+            rec = {"code": code, "box": [0] * 4, "pts": [[shapes.f2b(float(i)), shapes.f2b(1.0)] for i in range(1100)]}
+        else:
+            rec = F.gen_rec(rng, code, "finite", lens=lens)
+        m = {"type": code, "box": [0] * 8, "records": [{"num": 1, "shape": rec}, {"num": 2, "shape": F.gen_rec(rng, code, "finite", lens=[2]) if code not in refesri.MULTIPOINT else {"code": code, "box": [0] * 4, "pts": [[0, 0]]}}]}
+        bigs.append(m)
+    bcases, boracles = [], []
+    for m in bigs:
+        shp = refesri.encode_shp(m)
+        for req in (-1, m["type"]):
+            bcases.append(C.read_case(req, shp, None, [("it", -1)]))
+            boracles.append(oracle_for(m, req, [("it", -1)]))
+    btable = dict((id(c), o) for c, o in zip(bcases, boracles))
+    stages.correspondence(rep, "read_big", dev, bcases, "read(more than 1024 parts / patches / points)",
+                          oracle=lambda c, r: btable[id(c)](c, r), model=(tier == "thorough"))
     rep.assumptions += ["the Coq transcription of the whitepaper (Spec/Esri.v) is trusted; it is cross-checked by the fact that "
                         "model reader, real reader and the Python denotation agree on files produced by the independent Python encoder",
                         "polygon ring roles: IEEE double shoelace sign (Flocq in the model, CPython floats in the oracle)"]
